@@ -82,6 +82,9 @@ TraceNext ==
   /\ \/ TGet \/ TCreateBegin \/ TAddFactory \/ TResolve \/ TBefore \/ TAps \/ TInit \/ TAfter
      \/ TCheck \/ TCreateEnd \/ TRunReturn \/ TLookupReturn \/ TProcInit \/ TBinst \/ TRun \/ TLookupAll \/ TReset
   /\ (E.ev # "scenario" => StateMatchesP(E.st))
+  \* the node's own configuration values are bound in the Resolve step (ahead of every dependency fetch), and never for a
+  \* component a processor short-cuts past population
+  /\ ((E.ev \in {"before", "aps", "init", "after"} /\ "cfg" \in DOMAIN E) => E.cfg = (sc.mode[E.n] # "shortcut"))
 TraceSpec == TraceInit /\ [][TraceNext]_<<vars, l>>
 
 \* published instances never change (scenario resets excepted)
